@@ -7,8 +7,11 @@ package tubes
 
 import (
 	"bytes"
+	"encoding/binary"
 	"fmt"
 	"io"
+	"os"
+	"sort"
 	"sync"
 	"testing"
 	"time"
@@ -32,6 +35,11 @@ type c08Case struct {
 	SeedB     uint64         `json:"sb"`
 	CloserA   bool           `json:"closerA"`
 	ReadChunk int            `json:"rchunk"`
+	// Regime names the generator family ("" = fault schedules that heal, few writes around the frame limit;
+	// "small-writes" = long-lived tube, hundreds of writes below a size cap, loss-free link that keeps duplicating).
+	// It only labels the case: the scenario and the oracle are the same for every regime.
+	Regime  string `json:"regime,omitempty"`
+	SizeCap int    `json:"sizecap,omitempty"`
 }
 
 const c08Bound = 10 * time.Minute
@@ -94,6 +102,27 @@ func firstLines(s string, n int) string {
 
 func c08Scenario(c c08Case, v *vlib.Verdict) {
 	p := vNewPair(c.AB, c.BA, 0)
+	// network log of every acknowledgement-bearing frame (ACK flag, not an open request / response), per direction:
+	// used only to ATTRIBUTE a violation to its root cause by the history that preceded it (see c08MaxDupAckRun)
+	var ackMu sync.Mutex
+	var ackLog [2][]c08Ack
+	verbose := os.Getenv("VERIF_VERBOSE") != ""
+	p.Net.OnSend = func(dir int, pkt []byte, sent time.Duration, dlv []time.Duration) {
+		if len(pkt) < 12 {
+			return
+		}
+		if verbose {
+			fmt.Printf("C08-PKT dir=%d sent=%v dlv=%v flags=%06b len=%d ack=%d frame=%d\n", dir, sent, dlv, pkt[1], len(pkt)-12, binary.BigEndian.Uint32(pkt[4:8]), binary.BigEndian.Uint32(pkt[8:12]))
+		}
+		if pkt[1]&(1<<ACKIdx) == 0 || pkt[1]&(1<<REQIdx|1<<RESPIdx) != 0 {
+			return
+		}
+		ackMu.Lock()
+		for _, d := range dlv {
+			ackLog[dir] = append(ackLog[dir], c08Ack{at: d, seq: len(ackLog[dir]), ack: binary.BigEndian.Uint32(pkt[4:8])})
+		}
+		ackMu.Unlock()
+	}
 	A := &c08Side{name: "A", writes: c.WritesA, stream: vlib.Fill(c.SeedA, c08Total(c.WritesA))}
 	B := &c08Side{name: "B", writes: c.WritesB, stream: vlib.Fill(c.SeedB, c08Total(c.WritesB))}
 	A.expect, B.expect = B.stream, A.stream
@@ -230,6 +259,29 @@ func c08Scenario(c c08Case, v *vlib.Verdict) {
 	}
 	mu.Lock()
 	ph := phase
+	whiteBox := " [white box at the time of judgement: " + c08TubeDiag(A) + "; " + c08TubeDiag(B) + "]"
+	defer func() {
+		if !v.OK() {
+			v.Violations[0].Detail += whiteBox
+		}
+	}()
+	// ---- root-cause attribution by history (never a verdict of its own): the reliable sender counts consecutive
+	// acknowledgements that repeat its current acknowledgement number and, by design, gives the tube up after more than
+	// 100 of them (errTooManyDuplicateACKs). When the network log shows that one side WAS delivered such a run, whatever
+	// symptom follows (early end-of-stream, failing Write, stall) is that give-up and gets one signature; a tube that is
+	// torn down WITHOUT such a run in the log keeps its symptom-shaped signature.
+	ackMu.Lock()
+	now := p.Net.Elapsed()
+	runToB, runToA := c08MaxDupAckRun(ackLog[0], now), c08MaxDupAckRun(ackLog[1], now)
+	ackMu.Unlock()
+	maxRun := max(runToA, runToB)
+	fail := func(sig, f string, a ...any) {
+		if maxRun >= c08DupAckRunAttributed {
+			v.Failf("C08:tube-torn-down:more-than-100-consecutive-duplicate-acks", "[%s; network log: %d consecutive acknowledgements repeating one number were delivered to A, %d to B, with no loss needed] "+f, append([]any{sig, runToA, runToB}, a...)...)
+			return
+		}
+		v.Failf(sig, f, a...)
+	}
 	// ---- oracle
 	for _, s := range []*c08Side{A, B} {
 		if s.bad != "" {
@@ -239,16 +291,16 @@ func c08Scenario(c c08Case, v *vlib.Verdict) {
 	if v.OK() {
 		for _, s := range []*c08Side{A, B} {
 			if s.eof && s.got < len(s.expect) {
-				v.Failf("C08:eof-before-all-data", "side %s got end-of-stream after %d of %d bytes (peer wrote all of them before closing)", s.name, s.got, len(s.expect))
+				fail("C08:eof-before-all-data", "side %s got end-of-stream after %d of %d bytes (peer wrote all of them before closing)", s.name, s.got, len(s.expect))
 			}
 		}
 	}
 	if v.OK() {
 		for _, s := range []*c08Side{A, B} {
 			if s.writeErr != nil {
-				v.Failf("C08:write-failed", "side %s: %v", s.name, s.writeErr)
+				fail("C08:write-failed", "side %s: %v", s.name, s.writeErr)
 			} else if s.readErr != nil {
-				v.Failf("C08:read-error", "side %s: Read returned %v after %d of %d bytes", s.name, s.readErr, s.got, len(s.expect))
+				fail("C08:read-error", "side %s: Read returned %v after %d of %d bytes", s.name, s.readErr, s.got, len(s.expect))
 			}
 		}
 	}
@@ -258,14 +310,14 @@ func c08Scenario(c c08Case, v *vlib.Verdict) {
 		if diag == "unknown" {
 			sig = "C08:stall:" + ph
 		}
-		v.Failf(sig, "not complete %v (virtual) after the network healed: phase %s; A read %d/%d eof=%v, B read %d/%d eof=%v; %s",
+		fail(sig, "not complete %v (virtual) after the network healed: phase %s; A read %d/%d eof=%v, B read %d/%d eof=%v; %s",
 			c08Bound, ph, A.got, len(A.expect), A.eof, B.got, len(B.expect), B.eof, diag)
 	}
 	if v.OK() && !stalled {
 		if !follower.eof {
-			v.Failf("C08:no-eof", "follower %s finished without seeing end-of-stream", follower.name)
+			fail("C08:no-eof", "follower %s finished without seeing end-of-stream", follower.name)
 		} else if A.got != len(A.expect) || B.got != len(B.expect) {
-			v.Failf("C08:incomplete", "A read %d/%d, B read %d/%d", A.got, len(A.expect), B.got, len(B.expect))
+			fail("C08:incomplete", "A read %d/%d, B read %d/%d", A.got, len(A.expect), B.got, len(B.expect))
 		}
 	}
 	mu.Unlock()
@@ -304,6 +356,21 @@ func c08Scenario(c c08Case, v *vlib.Verdict) {
 	if len(A.stream) > 0 && len(B.stream) > 0 {
 		v.Label("both-directions")
 	}
+	if maxRun > 20 {
+		v.Label("consecutive-duplicate-acks>20")
+	}
+	if c.Regime != "" {
+		v.Label(c.Regime + "-regime")
+		if len(c.WritesA)+len(c.WritesB) > 120 {
+			v.Label("writes>120")
+		}
+		if st.Duplicated[0] > 100 || st.Duplicated[1] > 100 {
+			v.Label("duplicated-packets>100-in-one-direction")
+		}
+		if c.SizeCap > 0 && c.SizeCap <= 1000 {
+			v.Label("every-frame<=1000-bytes-on-one-side")
+		}
+	}
 	// ---- tear down (never judged here)
 	p.vStopBoth(30 * time.Second)
 	time.Sleep(2 * time.Minute)
@@ -335,6 +402,64 @@ func c08Diagnose(expect []byte, at int, got []byte) string {
 		return fmt.Sprintf("reordered data from later offset %d delivered at %d (hole)", i, at)
 	}
 	return "corrupt bytes that occur nowhere in the written stream"
+}
+
+type c08Ack struct {
+	at  time.Duration // delivery time
+	seq int           // order of sending within the direction (tie-break)
+	ack uint32
+}
+
+// c08DupAckRunAttributed: a run of at least this many consecutive duplicate acknowledgements in the network log
+// attributes a violation to the sender's duplicate-acknowledgement limit (which is 100; the margin covers the few
+// deliveries whose order the log cannot fix: equal delivery times).
+const c08DupAckRunAttributed = 95
+
+// c08MaxDupAckRun replays what one reliable sender was told, from the network log of the direction that reaches it:
+// the longest run of delivered acknowledgements that repeat the highest acknowledgement number delivered so far (the
+// sender only counts them once more than 20 frames were acknowledged), uninterrupted by one that advances it.
+func c08MaxDupAckRun(log []c08Ack, now time.Duration) int {
+	l := make([]c08Ack, 0, len(log))
+	for _, a := range log {
+		if a.at <= now {
+			l = append(l, a)
+		}
+	}
+	sort.SliceStable(l, func(i, j int) bool {
+		if l[i].at != l[j].at {
+			return l[i].at < l[j].at
+		}
+		return l[i].seq < l[j].seq
+	})
+	cur, run, best := uint32(1), 0, 0
+	for _, a := range l {
+		switch {
+		case a.ack > cur:
+			cur, run = a.ack, 0
+		case a.ack == cur && a.ack > 20:
+			run++
+			best = max(best, run)
+		}
+	}
+	return best
+}
+
+// c08TubeDiag describes the white-box state of a side's tube for the violation text (never part of a verdict).
+func c08TubeDiag(s *c08Side) string {
+	if s.tube == nil {
+		return s.name + ": no tube"
+	}
+	t := s.tube
+	if !t.l.TryLock() {
+		return s.name + ": tube lock held"
+	}
+	defer t.l.Unlock()
+	if !t.sender.m.TryLock() {
+		return s.name + ": sender lock held"
+	}
+	defer t.sender.m.Unlock()
+	return fmt.Sprintf("%s: state=%d senderClosed=%v dupAckCounter=%d sender.ackNo=%d sender.frameNo=%d unackedFrames=%d finSent=%v recvClosed=%v",
+		s.name, t.tubeState, t.sender.closed.Load(), t.sender.senderWindow.duplicatedAckCounter, t.sender.ackNo, t.sender.frameNo, len(t.sender.frames), t.sender.finSent, t.recvWindow.closed.Load())
 }
 
 func c08StallDiagnosis(A, B *c08Side) string {
@@ -402,7 +527,65 @@ func c08WritesGen(label string) *rapid.Generator[[]c08Write] {
 	return rapid.SliceOfN(w, 0, 8)
 }
 
+// c08SmallWritesGen: the long-lived interactive tube. One side (or both) makes hundreds of writes that all stay below a
+// drawn size cap (every write is one frame), with short pauses, over a link that loses nothing and never "heals": the
+// direction that carries the acknowledgements duplicates packets at a high rate for the whole life of the tube, the
+// data direction may do so too, both may reorder mildly. Whatever the sender accumulates per acknowledgement, per
+// duplicate or per small frame over a long session shows here; the regime of c08Gen (at most 8 writes per side) ends
+// long before.
+func c08SmallWritesGen(t *rapid.T) c08Case {
+	link := func(label string, dups []int) memconn.Params {
+		return memconn.Params{
+			Seed:     rapid.Uint64().Draw(t, label+"seed"),
+			DupPct:   rapid.SampledFrom(dups).Draw(t, label+"dup"),
+			DelayMs:  rapid.SampledFrom([]int{0, 1, 1, 20, 150}).Draw(t, label+"delay"),
+			JitterMs: rapid.SampledFrom([]int{0, 0, 0, 5, 80}).Draw(t, label+"jitter"),
+			HealMs:   -1, // never faithful: duplication (and jitter) go on for ever; nothing is ever lost
+		}
+	}
+	sizeCap := rapid.SampledFrom([]int{16, 200, 1000, 1000, 1400, 4096}).Draw(t, "sizecap")
+	small := func(label string, counts []int) []c08Write {
+		n := rapid.SampledFrom(counts).Draw(t, label+"count")
+		w := rapid.Custom(func(t *rapid.T) c08Write {
+			return c08Write{
+				N:       rapid.OneOf(rapid.SampledFrom([]int{1, 2, sizeCap / 2, sizeCap - 1, sizeCap}), rapid.IntRange(1, sizeCap)).Draw(t, label+"n"),
+				PauseMs: rapid.SampledFrom([]int{0, 0, 0, 1, 1, 5, 40}).Draw(t, label+"pause"),
+			}
+		})
+		return rapid.SliceOfN(w, n, n).Draw(t, label)
+	}
+	// primary: the side that makes the many small writes; its acknowledgements travel in the other direction
+	primary := small("wp", []int{40, 150, 300, 450, 600})
+	var secondary []c08Write
+	switch rapid.SampledFrom([]string{"none", "small", "small", "ordinary"}).Draw(t, "secondary") {
+	case "small":
+		secondary = small("ws", []int{1, 30, 150, 400})
+	case "ordinary":
+		secondary = c08WritesGen("ws").Draw(t, "ws")
+	}
+	data := link("data", []int{0, 0, 30, 100})
+	acks := link("acks", []int{30, 60, 100})
+	c := c08Case{
+		Regime:    "small-writes",
+		SizeCap:   sizeCap,
+		SeedA:     rapid.Uint64().Draw(t, "sa"),
+		SeedB:     rapid.Uint64().Draw(t, "sb"),
+		CloserA:   rapid.Bool().Draw(t, "closerA"),
+		ReadChunk: rapid.SampledFrom([]int{1 << 16, 4096, 100000, 7}).Draw(t, "rchunk"),
+	}
+	if rapid.Bool().Draw(t, "primaryA") {
+		c.WritesA, c.WritesB, c.AB, c.BA = primary, secondary, data, acks
+	} else {
+		c.WritesB, c.WritesA, c.BA, c.AB = primary, secondary, data, acks
+	}
+	return c
+}
+
 func c08Gen(t *rapid.T) c08Case {
+	// one case in eight (three fair coins) is drawn from the small-writes regime
+	if rapid.Bool().Draw(t, "r0") && rapid.Bool().Draw(t, "r1") && rapid.Bool().Draw(t, "r2") {
+		return c08SmallWritesGen(t)
+	}
 	return c08Case{
 		AB:        c08ParamsGen("ab").Draw(t, "ab"),
 		BA:        c08ParamsGen("ba").Draw(t, "ba"),
